@@ -113,6 +113,9 @@ def hostile(rng, S):
             (f'bicond:{o}:glut', ((op(o, A, B), B, neg(B)), op('Disjunction', A, neg(A)))),
             (f'bicond:{o}:self', ((), op(o, A, A))),
             # the connective refuted outright: its negation as an (undesignated) conclusion of a valid argument
+            (f'bicond:{o}:neg-prem:ant', ((neg(op(o, A, B)),), A)),
+            (f'bicond:{o}:neg-prem:cons', ((neg(op(o, A, B)),), B)),
+            (f'bicond:{o}:neg-prem:ncons', ((neg(op(o, A, B)),), neg(B))),
             (f'bicond:{o}:refute:1', ((A, neg(B)), neg(op(o, A, B)))),
             (f'bicond:{o}:refute:2', ((neg(A), B), neg(op(o, B, A)))),
             (f'bicond:{o}:lem', ((op(o, A, neg(A)),), B)),
